@@ -24,7 +24,8 @@ FRAGS = ["{% a %}", "{% /a %}", "{{ v }}", "{# c #}", "<!-- x -->", "<!-- /x -->
          "[r][s]", "[t]", " ", "\n", "w", "%}", "{%", "-->", "<!--", "``", "`", "(", ")", "[", "]", "{% a b=\"c d\" %}", "<a href=\"x y\">"]
 ATOMS = ["`code span here`", "[a link](http://x.y/z)", "[multi word link text](u)", "{% tag a=1 b=\"two words\" %}", "<b>", "</b>",
          "`x`", "[ref text][r]", "<!-- a comment here -->", "{{ some var }}", "{# a note #}", "<span class=\"x y\">", "``a ` b``",
-         "{% a %}{% /a %}", "{% field %}{% /field %}", "![alt text](http://i.mg \"T t\")"]
+         "{% a %}{% /a %}", "{% field %}{% /field %}", "![alt text](http://i.mg \"T t\")",
+         "<use xlink:href=\"#a b\">", "<p xml:lang=\"en us\">", "<button v-on:click=\"go now\">", "<a x-on:click.prevent=\"do it\">", "<input data-a.b=\"1 2\" disabled>"]
 LINES = ["{% field %}", "{% /field %}", "text here", "- item one", "  - nested", "| a | b |", "|---|---|", "<!-- c -->", "<!-- /c -->",
          "  <!-- ind -->", "word {% t %}", "{% t %} word", "", "  ", "1. one", "10) ten", "x {% a %}{% /a %} y", "{% a b=1", "c=2 %}{% /a %}",
          "c=2 %} {% /a %} tail", "{{ v }}", "{# n #}", "plain  ", "hard\\", "two  ", "* star", "+plus", "1.x", "-- x", "{{ /x }}", "{# /y #}", "  {% /z %}"]
@@ -190,6 +191,7 @@ def atoms_intact(ctx: Ctx, n: int) -> None:
 
 
 TAG_DOCS = [
+    "```\ncode\n````\n\n{% t %}\n- a\n- b\n{% /t %}\n", "~~~\nx\n~~~~~\n\n<!-- t -->\n| a | b |\n|---|---|\n| 1 | 2 |\n<!-- /t -->\n",
     "{% field %}\n- item 1\n- item 2\n{% /field %}\n",
     "{% field %}\n| a | b |\n|---|---|\n| 1 | 2 |\n{% /field %}\n",
     "<!-- start -->\n1. one\n2. two\n<!-- /start -->\n",
